@@ -17,6 +17,7 @@ from fractions import Fraction as F
 import numpy as np
 
 from checks import l1common
+from harness import tlc  # noqa: E402
 from harness import l0, l1, realruns
 from harness.report import Report
 
@@ -56,7 +57,15 @@ def run(tier: str, seed: int) -> int:
         for prof, ctrl, dt0 in profs:
             cfgB = _cfg(ptsB, pname + "-B", prof, ctrl, dt0)
             cfgA = _cfg(ptsA, pname + "-A", prof, ctrl, dt0)
-            res, behs = l1common.behaviours(cfgB, n, seed)
+            try:
+                res, behs = l1common.behaviours(cfgB, n, seed)
+            except tlc.MachineryError as e:
+                if "no complete behaviour" not in str(e):
+                    raise
+                # a (layout, profile, controller) combination of the thorough product without any complete history within
+                # the attempt bound: reported in the evidence, not run (and not counted)
+                rep.extra.setdefault("combinations_without_complete_history", []).append(cfgB["_name"])
+                continue
             rep.states += res.distinct
             rep.transitions += res.generated
             for sv in solvers:
